@@ -57,8 +57,8 @@ impl Scenario for C17 {
     fn generate(rng: &mut Rng, tier: Tier, _run: u64) -> Case17 {
         let mut tree = gen_sharing_tree(rng, tier == Tier::Thorough);
         // quick: mostly up to 700 nodes; 1 in 200 up to 6000 (paths longer than 63 bytes)
-        if tier == Tier::Quick && is_far_repeat(&tree) && rng.chance(3, 4) {
-            // keep the quick batch short: a quarter of the long lists
+        if is_far_repeat(&tree) && rng.chance(3, 4) {
+            // each long list costs as much as a few hundred ordinary cases: keep a quarter of them
             let cfg = TreeCfg {
                 far_repeat: false,
                 ..TreeCfg::swarm(rng, false)
